@@ -2,7 +2,7 @@
 From Coq Require Import ZArith List Bool Lia ZifyBool.
 From KV Require Import Model.Interp Model.SensorKeep.
 Import ListNotations.
-Open Scope Z_scope.
+Local Open Scope Z_scope.
 
 (* ---------------------------------------------------------------- k_all *)
 Lemma k_all_some : forall A (l : list A), k_all (map Some l) = Some l.
